@@ -249,6 +249,7 @@ class Scenario:
         messages = []
         out = []
         prev_text = None
+        state = None
         for t, turn in enumerate(script["turns"], start=1):
             self.cur_turn = t
             del self.shared[:]
@@ -257,6 +258,8 @@ class Scenario:
                 # the request reaches an instance that has no cached events for this conversation
                 self.app.events_history_cache.clear()
             text = user_text(t, 0, turn["kind"])
+            if turn.get("emptyuser"):
+                text = ""                 # what the documentation prescribes for checking a bot message only
             if turn.get("repeat") and prev_text is not None:
                 text = prev_text          # exactly the text of the previous user message
             prev_text = text
@@ -269,8 +272,14 @@ class Scenario:
                 msgs = msgs + [{"role": "assistant", "content": bot_text(t, 0)}]
             raised = None
             res = None
+            kw = {}
+            if script.get("via_state"):
+                # the conversation is carried by the `state` object of the previous reply; only the new messages are sent
+                msgs = msgs[len(messages) - 1:]
+                kw["state"] = state if t > 1 else {}
             try:
-                res = self.app.generate(messages=msgs, options=opts)
+                res = self.app.generate(messages=msgs, options=opts, **kw)
+                state = res.state
             except BaseException as ex:  # noqa
                 if isinstance(ex, (KeyboardInterrupt, SystemExit)):
                     raise
